@@ -314,6 +314,21 @@ fn task_job(specs: Vec<Spec>, len: usize, jumps: bool) -> Job {
             );
           }
         }
+        // "a handle reports closed only when its task can no longer act": the
+        // subscription a subscribing task has made acts on its behalf
+        if t.spec.kind == Kind::Subscribing
+          && !runs.is_empty()
+          && !t.ctl.is_closed()
+          && t.handle.is_closed() == Some(true)
+        {
+          obs.fail(
+            "c19:closed-while-produced-subscription-live",
+            format!(
+              "{specs:?} after [{}]: task {i} ran and the subscription it made is still open, yet its handle reports closed",
+              hist.join(" ")
+            ),
+          );
+        }
         if t.closed_runs.is_none() && t.handle.is_closed() == Some(true) {
           t.closed_runs = Some(runs.len());
         }
@@ -381,7 +396,7 @@ pub fn plan(tier: Tier) -> Plan {
       prop: "C19".into(),
       tier: tier_name(tier),
       engine: "E1 opseq".into(),
-      rule: "sets of 1-3 harness tasks (OnceTask/NormalReturn, OnceTask/SubscribeReturn over a controllable subscription, RepeatTask declining after n ticks, FutureTask over a harness-resolved future; delays none/1/2 ticks) on the real LocalSpawner behind the gate: every action sequence up to the length bound over {cancel(i) (so: before the first poll, while waiting on the timer, between ticks, after completion), resolve future, tick, jump 3 ticks, run ready task k in any order}; oracle after every action: one-shot bodies at most once and not before delay (nor before their future), repeating bodies with consecutive sequence numbers at least one period apart and never after declining, nothing runs after unsubscribe() returned or after is_closed() answered true, produced subscription unsubscribed by handle teardown; non-trivial = a body ran".into(),
+      rule: "sets of 1-3 harness tasks (OnceTask/NormalReturn, OnceTask/SubscribeReturn over a controllable subscription, RepeatTask declining after n ticks, FutureTask over a harness-resolved future; delays none/1/2 ticks) on the real LocalSpawner behind the gate: every action sequence up to the length bound over {cancel(i) (so: before the first poll, while waiting on the timer, between ticks, after completion), resolve future, tick, jump 3 ticks, run ready task k in any order}; oracle after every action: one-shot bodies at most once and not before delay (nor before their future), repeating bodies with consecutive sequence numbers at least one period apart and never after declining, nothing runs after unsubscribe() returned or after is_closed() answered true, produced subscription unsubscribed by handle teardown, and the handle of a subscribing task not closed while the subscription it made is open; non-trivial = a body ran".into(),
       bounds: json!({"task_configs": specs.len(), "len_one_task": l1, "len_two_tasks": l2, "len_three_tasks": l3, "clock_jumps": jumps}),
       assumptions: vec!["task bodies are atomic (single-threaded executor); overlapping bodies are E2's business".into()],
     },
